@@ -436,8 +436,8 @@ VALUE_EXPRS = [
 PATTERNS = ['', 'x="a"', 'x=regex("a")', 'x=1', 'x={"a"}', 'x=[1]']
 EVENT_ALPHABET = [
     {"type": "E1", "x": "a"}, {"type": "E1", "x": 1}, {"type": "E2"}, {"type": "E3"},
-    {"type": "MyActionFinished", "action_uid": "@0"}, {"type": "MyActionFinished", "action_uid": "@1"},
-    {"type": "E1", "x": ["a"]},
+    {"type": "MyActionFinished", "action_uid": "@0"}, {"type": "MyActionStarted", "action_uid": "@0"},
+    {"type": "MyActionFinished", "action_uid": "@1"}, {"type": "E1", "x": ["a"]},
 ]
 
 HELPERS = '''flow f1 $p
@@ -457,7 +457,30 @@ flow f3 $p
 
 flow f4 $act
   match $act.Finished()
-  send F4Fin(n=$act.name)
+  send F4Fin(n=$act.name, s=str($act.status))
+
+flow f5 $act
+  match E2()
+  send F5Report(s=str($act.status), n=$act.name)
+
+flow s1
+  match E1(x="a")
+  start MyAction(x=7) as $a
+  match E2()
+  send S1Done(s=str($a.status))
+
+flow s2
+  match E1()
+  start MyAction(x=7) as $a
+  match $a.Finished()
+  send S2Fin(s=str($a.status))
+  match E3()
+  send S2Done()
+
+flow s3
+  match E1()
+  await MyAction(x=7)
+  send S3Done()
 
 flow g1
   match E3()
@@ -489,7 +512,7 @@ def gen_program(rng, stats):
         if refs:
             c += [f"${rng.choice(refs)}.flow_id", f"${rng.choice(refs)}.hierarchy_position"]
         if acts:
-            c += [f"${rng.choice(acts)}.name"]
+            c += [f"${rng.choice(acts)}.name", f"str(${rng.choice(acts)}.status)", f"str(${rng.choice(acts)}.status)"]
         if evs:
             c += [f"${rng.choice(evs)}.name"]
         return rng.choice(c) if c else "1"
@@ -528,12 +551,17 @@ def gen_program(rng, stats):
             lines.append(f"  start MyAction(p={arg}) as ${a}")
             acts.append(a)
             stats["start_action"] = stats.get("start_action", 0) + 1
-            if rng.random() < 0.4:
-                lines.append(f"  start f4 ${a}")
+            if rng.random() < 0.5:
+                lines.append(f"  start {rng.choice(['f4', 'f5'])} ${a}")
                 stats["flow_given_action_ref"] = stats.get("flow_given_action_ref", 0) + 1
-        elif r < 0.64:
+        elif r < 0.62:
             lines.append(f"  activate {rng.choice(['g1', 'g2'])}")
             stats["activate"] = stats.get("activate", 0) + 1
+        elif r < 0.66:
+            # two flows that start the identical action on the same event (one shared Action)
+            for f in rng.sample(["s1", "s2", "s3"], 2):
+                lines.append(f"  start {f}")
+            stats["co_winning_actions"] = stats.get("co_winning_actions", 0) + 1
         elif r < 0.80:
             e = f"e{len(evs)}"
             ev = rng.choice(["E1", "E2", "E3"])
@@ -578,7 +606,24 @@ PROBES = {
     "two-flows-one-action": HELPERS + '\nflow main\n  start MyAction(x=1) as $a0\n  start f4 $a0\n  start f4 $a0\n  match E2()\n  send Out1(v=$a0.name)\n  match $a0.Finished()\n  send Out2(v=1)\n  match Never()\n',
     "set-variable": 'flow main\n  $s = {"a", "b"}\n  match E2()\n  send Out1(v=len($s), t=type($s))\n  match E1(x=$s)\n  send Out2(v=1)\n  match Never()\n',
     "finished-child-then-idle": HELPERS + '\nflow main\n  start f1 [1] as $r0\n  match $r0.Finished()\n  send Out1(v=$r0.flow_id)\n  match E2()\n  send Out2(v=$r0.flow_id)\n  start f1 [2] as $r1\n  match $r1.Finished()\n  send Out3(v=1)\n  match Never()\n',
+    "shared-action-owner-finishes": HELPERS + '\nflow main\n  start s1\n  start s2\n  match Never()\n',
+    "shared-action-awaited": HELPERS + '\nflow main\n  start s1\n  start s3\n  match Never()\n',
+    "action-status-through-reference": HELPERS + '\nflow main\n  start MyAction(x=1) as $a0\n  start f5 $a0\n  match E1()\n  send MainReport(s=str($a0.status))\n  match $a0.Finished()\n  send Fin(s=str($a0.status))\n  match Never()\n',
     "activated-restarts": HELPERS + '\nflow main\n  activate g1\n  activate g2\n  match E2()\n  send Out1(v=1)\n  match Never()\n',
+}
+
+# histories / continuations of probes that need longer, specific event sequences
+_A = EVENT_ALPHABET
+PROBE_PLANS = {
+    "shared-action-owner-finishes": {
+        "histories": [[_A[0], _A[5], _A[2]], [_A[0], _A[2]]],
+        "continuations": [[_A[3], _A[4], _A[3]], [_A[4], _A[3]], [_A[4]], [_A[3]], [_A[1], _A[4], _A[3]]]},
+    "shared-action-awaited": {
+        "histories": [[_A[0], _A[5], _A[2]], [_A[0], _A[2]]],
+        "continuations": [[_A[3], _A[4]], [_A[4]], [_A[1], _A[4], _A[3]]]},
+    "action-status-through-reference": {
+        "histories": [[_A[5]], [_A[5], _A[0]]],
+        "continuations": [[_A[5], _A[0], _A[2]], [_A[4], _A[0], _A[2]], [_A[0], _A[4], _A[2]], [_A[2], _A[4]], [_A[4], _A[2]]]},
 }
 
 _UUID_RE = re.compile(r"[0-9a-f]{8}-[0-9a-f]{4}-[0-9a-f]{4}-[0-9a-f]{4}-[0-9a-f]{12}|\([a-z_0-9 ]+\)[0-9a-f]{4,5}-[0-9a-f]{2,}")
@@ -879,9 +924,10 @@ def _abstract_state(state, base, actnum):
         heads = clist([f"({cstr(h)}, {clist([C.coq_Z(ftoken(float(x))) for x in hd.matching_scores])})"
                        for h, hd in fs.heads.items()])
         par = "None" if fs.parent_uid is None else f"(Some {cstr(fs.parent_uid)})"
+        scopes = clist([f"({cstr(k)}, {clist([cstr(u) for u in v[0]])})" for k, v in fs.scopes.items()])
         rows.append(f"({cstr(uid)}, mkInst {cstr(fs.flow_id)} {cstr(fs.status.name)} {C.coq_Z(us(fs.status_updated))} "
                     f"{C.coq_Z(int(fs.activated))} {par} {clist([cstr(c) for c in fs.child_flow_uids])} "
-                    f"{clist([cstr(a) for a in fs.action_uids])} {heads} 0)")
+                    f"{clist([cstr(a) for a in fs.action_uids])} {heads} {scopes} 0)")
     byf = clist([f"({cstr(k)}, {clist([cstr(f.uid) for f in v])})" for k, v in state.flow_id_states.items()])
     acts = []
     for k, a in state.actions.items():
@@ -934,6 +980,7 @@ def _x3_cases(src, events, rng_seed, limit):
             before = _abstract_state(st2, base, actnum)
             n_before = len(st2.flow_states)
             snapshot = {u: (f.status.name, int(f.activated), f.status_updated) for u, f in st2.flow_states.items()}
+            acts_before = set(st2.actions)
             refd = None
             try:
                 sm._clean_up_state(st2)
@@ -949,6 +996,12 @@ def _x3_cases(src, events, rng_seed, limit):
                     age_s = (tnow - upd).total_seconds()
                     if stn not in ("FINISHED", "STOPPED") or actv != 0 or not age_s > 5.0:
                         wrong.append({"uid": u, "status": stn, "activated": actv, "age_s": age_s})
+            # ... and no action that a remaining instance still lists may be discarded
+            if after != "None":
+                for u, f in st2.flow_states.items():
+                    for a in f.action_uids:
+                        if a in acts_before and a not in st2.actions:
+                            wrong.append({"uid": u, "status": "ACTION:" + a, "activated": 0, "age_s": 0.0})
             _Clock.offset = saved
             cases.append({"term": f"({C.coq_Z(now_us)}, {before}, {after})", "removed": n_before - len(st2.flow_states),
                           "flows": n_before, "wrong": wrong[:3], "src": src if wrong else None,
@@ -1088,14 +1141,14 @@ def classify_save(info, shape):
     return "restore-raised:" + (info.get("restore_raised") or "?").split(":")[0]
 
 
-def classify_diff(d):
+def classify_diff(d, src=""):
     shape = d.get("shape") or {}
     if d["mode"] == "aged":
         return "aged-state-behaves-differently"
-    if shape.get("shared_list"):
+    # a copied list is observable only through a later in-place mutation: the recorded class is
+    # claimed only for programs that mutate a list while the saved state holds a list twice
+    if shape.get("shared_list") and ".append(" in src:
         return "shared-list-copied"
-    if shape.get("nonstr_keys"):
-        return "non-string-dict-keys"
     return "restored-state-behaves-differently"
 
 
@@ -1121,8 +1174,9 @@ def run(tier, seed, replay=None):
     tmp = tempfile.mkdtemp(prefix="c11_", dir=C.BUILD)
     A = EVENT_ALPHABET
     conts1 = [[a] for a in A]
-    conts2 = [[a, b2] for a in A[:5] for b2 in A[:5]]
-    conts3 = [[a, b2, c] for a in A[:4] for b2 in A[:4] for c in A[:4]]
+    conts2 = [[a, b2] for a in A[:6] for b2 in A[:6]]
+    conts3 = [[a, b2, c] for a in (A[0], A[2], A[3], A[4], A[5]) for b2 in (A[0], A[2], A[3], A[4], A[5])
+              for c in (A[0], A[2], A[3], A[4])]
 
     # ---- X2 jobs (child processes, started first)
     stats = {}
@@ -1135,8 +1189,9 @@ def run(tier, seed, replay=None):
                           "continuations": [rp["continuation"]], "picks": [rp.get("pick", 0)]})
     else:
         for name, src in PROBES.items():
-            items.append({"id": "probe:" + name, "src": src, "histories": [[A[2]], [A[0], A[2], A[4]]],
-                          "continuations": conts1 + conts2[:10], "picks": [0]})
+            plan = PROBE_PLANS.get(name, {})
+            items.append({"id": "probe:" + name, "src": src, "histories": plan.get("histories", [[A[2]], [A[0], A[2], A[4]]]),
+                          "continuations": plan.get("continuations", conts1 + conts2[:10]), "picks": [0]})
         corpus_dir = os.path.join(C.VERIF, "corpus", PID)
         if os.path.isdir(corpus_dir):
             for fn in sorted(os.listdir(corpus_dir)):
@@ -1169,6 +1224,9 @@ def run(tier, seed, replay=None):
             x3_items.append({"src": src, "events": [rng.choice(A) for _ in range(6)], "seed": rng.randrange(10**6), "limit": 14})
         for name in ("finished-child-then-idle", "two-flows-one-action", "activated-restarts"):
             x3_items.append({"src": PROBES[name], "events": [A[0], A[2], A[4], A[3], A[0], A[2]], "seed": 1, "limit": 21})
+        for name in ("shared-action-owner-finishes", "shared-action-awaited"):
+            for sd, evs in ((1, [A[0], A[5], A[2], A[3], A[4], A[3]]), (2, [A[0], A[2], A[1], A[4], A[3]])):
+                x3_items.append({"src": PROBES[name], "events": evs, "seed": sd, "limit": 21})
     x3p = None
     if x3_items:
         jp, x3res = os.path.join(tmp, "x3job.json"), os.path.join(tmp, "x3res.json")
@@ -1234,13 +1292,17 @@ def run(tier, seed, replay=None):
         for c in x3cases:
             if c.get("wrong"):
                 w = c["wrong"][0]
-                sig = ("cleanup-removes-activated-instance" if w["activated"] != 0 else
+                sig = ("cleanup-removes-referenced-action" if str(w["status"]).startswith("ACTION:") else
+                       "cleanup-removes-activated-instance" if w["activated"] != 0 else
                        "cleanup-removes-unfinished-instance" if w["status"] not in ("FINISHED", "STOPPED") else
                        "cleanup-removes-recently-finished-instance")
-                out.findings.append(C.Finding(sig, f"_clean_up_state discarded instance {w['uid']} (status {w['status']}, activated {w['activated']}, finished {w['age_s']:.6f} s ago)",
+                what = (f"_clean_up_state discarded action {w['status'][7:]} although the remaining instance {w['uid']} still lists it"
+                        if sig == "cleanup-removes-referenced-action" else
+                        f"_clean_up_state discarded instance {w['uid']} (status {w['status']}, activated {w['activated']}, finished {w['age_s']:.6f} s ago)")
+                out.findings.append(C.Finding(sig, what,
                                               {"kind": "x3", "src": c["src"], "events": c["events"], "clock_s": c["clock_s"], "removed": c["wrong"],
                                                "seed": c.get("seed"), "limit": c.get("limit"),
-                                               "required": "only FINISHED/STOPPED, non-activated instances older than 5 s are discarded"}))
+                                               "required": "only FINISHED/STOPPED, non-activated instances older than 5 s and only actions no remaining instance references are discarded"}))
         if okm and x3cases:
             bools, err = C.run_cases(PID + "_x3", PREAMBLE_CL, [c["term"] for c in x3cases], "check_cleanup", shard=40)
             if err:
@@ -1283,7 +1345,7 @@ def run(tier, seed, replay=None):
                                                "continuation": [], "mode": f["mode"], "observed": what,
                                                "required": "saving and restoring succeeds at every cut point"}))
             for d in r["diffs"]:
-                sig = classify_diff(d)
+                sig = classify_diff(d, srcs[r["id"]])
                 out.findings.append(C.Finding(sig, f"{d['mode']} state reacts differently from the live one",
                                               {"kind": "x2", "program": r["id"], "src": srcs[r["id"]], "history": d["history"],
                                                "continuation": d["continuation"], "mode": d["mode"], "pick": d["pick"],
